@@ -55,6 +55,28 @@ def run(ctx):
         if not r2.ok:
             ctx.drift(f"{name}: model invariant {r2.violated} violated")
 
+    # the law on every reachable tree of the implementation-shaped model (BrownianLaw.tla): thorough tier
+    if not quick:
+        import os
+        for name in ("A", "A3"):
+            cfg = cat[name]
+            c = ("SPECIFICATION Spec\n" + cfg.constants_cfg() + "INVARIANT ChildSum\nINVARIANT Law\nINVARIANT FreshAtoms\n"
+                 "CONSTRAINT Bounded\nVIEW TreeView\nCHECK_DEADLOCK FALSE\n")
+            r3 = tlc.run("BrownianLaw", cfg_text=c, timeout=1800, workers=8)
+            ctx.add_tlc(r3, f"BrownianLaw {name}: ChildSum, Law, FreshAtoms on every reachable tree")
+            if not r3.ok:
+                ctx.violation(dict(kind="spec", invariant=r3.violated, cfg=name), "law violated on a reachable tree of the model")
+        # non-vacuity: a wrong bridge coefficient in the spec must be rejected by Law
+        src = open(os.path.join(tlc.SPEC_DIR, "BrownianLaw.tla")).read()
+        mut = src.replace("MODULE BrownianLaw", "MODULE BrownianLawMut").replace("sl  == R(6 * l * r, h * h)", "sl  == R(5 * l * r, h * h)")
+        c = ("SPECIFICATION Spec\n" + cat["A"].constants_cfg() + "INVARIANT Law\nCONSTRAINT Bounded\nVIEW TreeView\n"
+             "CHECK_DEADLOCK FALSE\n")
+        r4 = tlc.run("BrownianLawMut", cfg_text=c, timeout=900, workers=8, extra_modules={"BrownianLawMut": mut})
+        ctx.add_tlc(r4, "BrownianLaw with a wrong coefficient (must violate Law)")
+        ctx.notes["law_spec_mutant_rejected"] = r4.violated == "Law"
+        if r4.violated != "Law":
+            ctx.drift("non-vacuity control: BrownianLaw with a wrong bridge coefficient was not rejected")
+
     names = ["A", "D", "C2"] if quick else ["A", "A1", "A3", "D", "E", "F", "C2", "C", "B", "G"]
     modes = [(lv, sup) for lv in ("none", "space-time", "davie") for sup in ("none", "W", "WH")]
     k = 0
